@@ -371,7 +371,7 @@ def load_known():
 
 # --------------------------------------------------------------------------- check a property
 
-def check_property(prop, tier, jobs, only=None):
+def check_property(prop, tier, jobs, only=None, shape_filter=None):
     t0 = time.time()
     seed = int(os.environ.get('VERIF_SEED', '0') or 0)
     pinfo = reg.PROPS[prop]
@@ -390,6 +390,8 @@ def check_property(prop, tier, jobs, only=None):
             shapes = shapes(tier)
         if shapes:
             for s in shapes:
+                if shape_filter and shape_filter not in s['name']:
+                    continue
                 work.append((q, s))
         else:
             work.append((q, None))
@@ -398,7 +400,7 @@ def check_property(prop, tier, jobs, only=None):
     for k in known_p:
         if 'define' in k and 'query' in k:
             kf_defs.setdefault(k['query'], []).append('-D' + k['define'])
-    if not only:
+    if not only and not shape_filter:
         shutil.rmtree(os.path.join(VERIF, 'replay', prop), ignore_errors=True)
     scratch_root = tempfile.mkdtemp(prefix='kv_%s_' % prop)
     results = []
@@ -542,13 +544,14 @@ def main():
     c.add_argument('--tier', default=os.environ.get('VERIF_TIER', 'quick'))
     c.add_argument('--jobs', type=int, default=int(os.environ.get('KV_JOBS', '14')))
     c.add_argument('--only', default=None)
+    c.add_argument('--shape', default=None)
     rp = sub.add_parser('replay')
     rp.add_argument('file')
     sub.add_parser('list')
     a = ap.parse_args()
     if a.cmd == 'check':
         tier = a.tier if a.tier in ('quick', 'thorough') else 'quick'
-        sys.exit(check_property(a.prop, tier, a.jobs, a.only))
+        sys.exit(check_property(a.prop, tier, a.jobs, a.only, a.shape))
     elif a.cmd == 'replay':
         rep, txt = do_replay(a.file)
         print(txt)
